@@ -34,6 +34,10 @@ SPEC = Spec(
                 files={"zz_verif_c05_core_test.go": "c05/core_test.go", "zz_verif_c05_signals_test.go": "c05/signals_test.go"},
                 test="TestVerifC05Retry", driver="drv_c05", go="go1.26",
                 n={"quick": 6000, "thorough": 150000}, timeout_s=1500),
+        Harness(name="multi", module="exporter", pkg="exporter/exporterhelper",
+                files={"zz_verif_c05_core_test.go": "c05/core_test.go", "zz_verif_c05_signals_test.go": "c05/signals_test.go"},
+                test="TestVerifC05Multi", driver="drv_c05", go="go1.26",
+                n={"quick": 1500, "thorough": 30000}, timeout_s=1500),
         Harness(name="retry-profiles", module="exporter/exporterhelper/xexporterhelper", pkg="exporter/exporterhelper/xexporterhelper",
                 files={"zz_verif_c05_core_test.go": "c05/gen_xcore_test.go", "zz_verif_c05_signals_test.go": "c05/xsignals_test.go"},
                 test="TestVerifC05Retry", driver="drv_c05", go="go1.26",
@@ -64,6 +68,10 @@ SPEC = Spec(
          "deadline (ctx.Deadline(), and Canceled/DeadlineExceeded for pushers that wait for their context). Corpus first (DESIGN probe; zero-delay + shutdown / "
          "cancel during the attempt; shutdown+cancel both pending; throttle/partial/permanent; deadline). thorough adds every script of "
          "length <=3 over 6 outcome kinds x 16 event placements x 2 configs. non-trivial = at least two attempts; distinct = sha1 of op lines. "
+         "multi: 2-4 requests with their own scripts CONCURRENTLY through one exporter (one retrySender, one stopCh), started at "
+         "different offsets, some after Shutdown; rf=0; each request's observed trace is compared with the model run on its own script on "
+         "its own clock with the shutdown instant shifted to that clock (independence of requests); corpus: three requests in back-off "
+         "when shutdown arrives + one started after it; two started after Shutdown; B starting while A is deep in its back-off. "
          "retry-profiles: the same core in package xexporterhelper driving NewProfilesExporter / xconsumererror.Profiles. "
          "otlp-grpc: otlpexporter.processError on every gRPC code x {no RetryInfo, 6 delays}: nil / permanent / plain / throttle(d). "
          "errs: random wrap/join error trees (depth<=5) classified by the real IsPermanent / IsShutdownErr / errors.As(throttleRetry) / "
